@@ -32,6 +32,7 @@
 import FalconProofs.C02.InstrOK
 import FalconProofs.C02.PpcMask
 import FalconProofs.C02.PpcTop
+import FalconProofs.C02.Jr
 
 namespace Falcon.C02
 open Falcon Falcon.Isa.Mips
@@ -102,6 +103,19 @@ theorem scalar_write_is_register_write (σ : State) (rd : Reg) (v : Word) :
 theorem ppc_mask_closed_form : ∀ mb me : Fin 32, (Isa.Ppc.mask mb.val me.val).toNat = Isa.Ppc.maskLifter mb.val me.val :=
   Isa.Ppc.mask_eq_maskLifter
 
+/-- `jr rs` with its delay slot — PARTIAL.  Full statement (the property): for every slot instruction `d` of (A),
+    `liftPair (.jr rs) d addr = some r → StateOK σ → step2i (.jr rs) d pc (absState σ) = .next s' pc' u →
+     ∃ σ', runBTR r σ = .next σ' [pc'.toNat] ∧ …`.  It is FALSE for the current lifter: the IL reads `rs` after the slot (known
+    finding `C02/mips*/jr+*/next`; falcon's own tests assert that behaviour).  Proved: the lifted block runs the slot and then jumps
+    to the post-slot value of `rs`, which is the manual's target whenever the slot leaves `rs` unchanged (`hkeep`).  Missing: the
+    case of a slot that writes `rs`; the same treatment of jal/jalr/bal/bgezal/bltzal (link and condition after the slot). -/
+theorem jr_pair_agrees_partial (rs : Reg) (d : Isa.Mips.Instr) (addr : Nat) (r : BTR) (σ : State)
+    (hl : liftPair (.jr rs) d addr = some r) (hσ : StateOK σ) (s' : St) (pc' : Word) (u : Bool)
+    (hx : step2i (.jr rs) d (BitVec.ofNat 32 addr) (absState σ) = .next s' pc' u)
+    (hkeep : s'.r rs = (absState σ).r rs) :
+    ∃ σ', runBTR r σ = .next σ' [pc'.toNat] ∧ StateOK σ' ∧ Eqv u (absState σ') s' :=
+  Isa.Mips.jr_pair_agrees_partial rs d addr r σ hl hσ s' pc' u hx hkeep
+
 /-! ### PowerPC -/
 
 /-- **PowerPC, one instruction word: all fields, all states.**  For every word `w` the PPC mirror lifts, every address and every
@@ -133,6 +147,7 @@ example : (liftBTR false [0x8c820010#32] 0x1000).isSome = true := by decide     
 example : (liftBTR true [0x00850018#32] 0x1000).isSome = true := by decide       -- mult $a0, $a1
 example : (liftBTR true [0x0085100b#32] 0x1000).isSome = true := by decide       -- movn $v0, $a0, $a1
 example : (liftBTR true [0x00001010#32] 0x1000).isSome = true := by decide       -- mfhi $v0
+example : (liftBTR true [0x03200008#32, 0x24840001#32] 0x1000).isSome = true := by decide   -- jr $t9 ; addiu $a0,$a0,1
 example : (Isa.Ppc.liftBTR [0x7c642a14#32] 0x1000).isSome = true := by decide    -- add r3,r4,r5
 example : (Isa.Ppc.liftBTR [0x7c840195#32] 0x1000).isSome = true := by decide    -- addze. r4,r4
 example : (Isa.Ppc.liftBTR [0x54648e66#32] 0x1000).isSome = true := by decide    -- rlwinm r4,r3,17,25,19
